@@ -100,6 +100,8 @@ mod high_low;
 mod ml_dsa;
 mod ntt;
 mod types;
+#[cfg(feature = "verif-hooks")]
+pub mod verif_hooks;
 
 /// All functionality is covered by traits, such that consumers can utilize trait objects as desired.
 pub mod traits;
